@@ -15,7 +15,7 @@ const aggMap = "pkg/intermediate.AggregationProcess.flowKeyRecordMap"
 func init() {
 	register(&propDef{
 		ID:          "C06",
-		Explanation: "Typestate and ownership rules for the expiry queue, decided on SSA: (1) R-TYPESTATE: at every container/heap.Pop of AggregationProcess.expirePriorityQueue, the popped item (by def-use from the type assertion) is, on EVERY path to a function exit or back to the loop head, either pushed back with container/heap.Push(queue, sameItem) or its flow is deleted from the map (deleteFlowKeyFromMapWithoutLock(*sameItem.flowKey) / delete(map, *sameItem.flowKey)) - so no held flow is left without a queue entry and no queue entry without a flow; (2) a new AggregationFlowRecord reaches the map only after container/heap.Push of an item with item.flowRecord = record and record.PriorityQueueItem = item; (3) map deletions happen only where the item is out of the heap (dominated by the Pop) - the locked wrapper has no non-test caller; (4) on the existing-flow branch every non-error path calls queue.Update(item, ..., item.activeExpireTime (unchanged), now + inactiveTimeout), and Update stores both deadlines and ends in heap.Fix(pq, item.index); (5) heap interface obligations: Swap/Push/Pop maintain index (i, j / len / -1), Less compares minExpireTime(i) and minExpireTime(j) with Before, minExpireTime returns the earlier deadline, the advertised expiry reads minExpireTime(0); (6) deadline tests: the Pop is unreachable when both deadlines are After(now); after a successful callback the delete is guarded by the inactive deadline of the popped item, the not-ready delete by retries > MaxRetries, and the active deadline is re-armed to now + activeTimeout before the re-push. (7) R-VALUE.deadline: every store to a deadline anywhere in the package is Now().Add(the timeout of the same kind) or a parameter; Pop returns (*pq)[n-1] and keeps (*pq)[0:n-1]; the clamp of the advertised expiry and 're-arm only after the callback succeeded' are path rules. Not decided: wall-clock 'exactly when', container/heap's own correctness. Later additions: no exit between the Push of a new item and the map insertion; at every re-push of a popped item both deadlines are re-armed or known to be After(now) (callback-failure push exempt); a flow that needs no correlation is ready at once on every path; nil is returned only after the map insertion. Round-five additions: C07's retry-budget rule (the item is deleted only when the retries exceed MaxRetries, re-armed otherwise).",
+		Explanation: "Typestate and ownership rules for the expiry queue, decided on SSA: (1) R-TYPESTATE: at every container/heap.Pop of AggregationProcess.expirePriorityQueue, the popped item (by def-use from the type assertion) is, on EVERY path to a function exit or back to the loop head, either pushed back with container/heap.Push(queue, sameItem) or its flow is deleted from the map (deleteFlowKeyFromMapWithoutLock(*sameItem.flowKey) / delete(map, *sameItem.flowKey)) - so no held flow is left without a queue entry and no queue entry without a flow; (2) a new AggregationFlowRecord reaches the map only after container/heap.Push of an item with item.flowRecord = record and record.PriorityQueueItem = item; (3) map deletions happen only where the item is out of the heap (dominated by the Pop) - the locked wrapper has no non-test caller; (4) on the existing-flow branch every non-error path calls queue.Update(item, ..., item.activeExpireTime (unchanged), now + inactiveTimeout), and Update stores both deadlines and ends in heap.Fix(pq, item.index); (5) heap interface obligations: Swap/Push/Pop maintain index (i, j / len / -1), Less compares minExpireTime(i) and minExpireTime(j) with Before, minExpireTime returns the earlier deadline, the advertised expiry reads minExpireTime(0); (6) deadline tests: the Pop is unreachable when both deadlines are After(now); after a successful callback the delete is guarded by the inactive deadline of the popped item, the not-ready delete by retries > MaxRetries, and the active deadline is re-armed to now + activeTimeout before the re-push. (7) R-VALUE.deadline: every store to a deadline anywhere in the package is Now().Add(the timeout of the same kind) or a parameter; Pop returns (*pq)[n-1] and keeps (*pq)[0:n-1]; the clamp of the advertised expiry and 're-arm only after the callback succeeded' are path rules. Not decided: wall-clock 'exactly when', container/heap's own correctness. Later additions: no exit between the Push of a new item and the map insertion; at every re-push of a popped item both deadlines are re-armed or known to be After(now) (callback-failure push exempt); a flow that needs no correlation is ready at once on every path; nil is returned only after the map insertion. Round-five additions: C07's retry-budget rule (the item is deleted only when the retries exceed MaxRetries, re-armed otherwise). Round-six additions: one FlowKey object per record (the queue item keeps the pointer it is given).",
 		Assume:      []string{"container/heap implements a binary heap over the heap.Interface it is given", "time.Time.After/Before semantics"},
 		Run:         runC06,
 	})
@@ -70,6 +70,8 @@ func isFlowKeyOfItem(v ssa.Value, item ssa.Value) bool {
 }
 
 func runC06(p *Prog, r *Report, tier string) {
+	// the queue item keeps the *FlowKey it is given: one key object per record
+	checkFreshPerIteration(p, r, "R-OWNER.key-fresh", "(*pkg/intermediate.AggregationProcess).AggregateMsgByFlowKey", func(n string) bool { return strings.HasSuffix(n, ").addOrUpdateRecordInMap") }, 1, "flow key")
 	g := p.CallGraph()
 	delFn := p.Fn("(*pkg/intermediate.AggregationProcess).deleteFlowKeyFromMapWithoutLock")
 	// ---- (1) typestate at every Pop
